@@ -20,8 +20,8 @@ type c04Inv struct {
 }
 
 type c04Case struct {
-	Subs     [][]string `json:"subs"`     // external extensions e0.. and their subscriptions
-	Internal bool       `json:"internal"` // one internal extension subscribed to INVOKE, registered by the runtime process
+	Subs     [][]string `json:"subs"`             // external extensions e0.. and their subscriptions
+	Internal bool       `json:"internal"`         // one internal extension subscribed to INVOKE, registered by the runtime process
 	Silent   bool       `json:"silent,omitempty"` // a second internal extension, registered without any subscription, parked on its next
 	Invs     []c04Inv   `json:"invs"`
 	// Prelude: a first generation of processes fails one invocation before the judged ones ("rtcrash": the runtime exits
@@ -367,7 +367,25 @@ func c04Gen(t *rapid.T) c04Case {
 		order = append(append(order[:i:i], order[i+1:]...), h)
 		inv := c04Inv{Order: order, QuietMs: rapid.IntRange(30, 100).Draw(t, fmt.Sprintf("quiet%d", j))}
 		if rapid.Bool().Draw(t, fmt.Sprintf("trace%d", j)) {
-			inv.Trace = fmt.Sprintf("Root=1-5e1b4151-%024d;Parent=53995c3f42cd8ad8;Sampled=%d", rapid.IntRange(0, 1<<30).Draw(t, fmt.Sprintf("root%d", j)), j%2)
+			root := fmt.Sprintf("1-5e1b4151-%024d", rapid.IntRange(0, 1<<30).Draw(t, fmt.Sprintf("root%d", j)))
+			// "the caller's trace header value": whatever the caller sent, in the caller's spelling - the usual three fields,
+			// but also a Lineage or Self field, no Sampled, another order, no Root, or no X-Ray syntax at all
+			switch rapid.SampledFrom([]string{"plain", "plain", "lineage", "nosampled", "reordered", "noroot", "self", "opaque"}).Draw(t, fmt.Sprintf("traceForm%d", j)) {
+			case "plain":
+				inv.Trace = fmt.Sprintf("Root=%s;Parent=53995c3f42cd8ad8;Sampled=%d", root, j%2)
+			case "lineage":
+				inv.Trace = fmt.Sprintf("Root=%s;Parent=53995c3f42cd8ad8;Sampled=1;Lineage=a87bd80c:1|68fd508a:5|c512fbe3:2", root)
+			case "nosampled":
+				inv.Trace = fmt.Sprintf("Root=%s;Parent=53995c3f42cd8ad8", root)
+			case "reordered":
+				inv.Trace = fmt.Sprintf("Sampled=%d;Root=%s;Parent=53995c3f42cd8ad8", j%2, root)
+			case "noroot":
+				inv.Trace = "Parent=53995c3f42cd8ad8;Sampled=1"
+			case "self":
+				inv.Trace = fmt.Sprintf("Self=1-67891234-12456789abcdef012345678;Root=%s;Parent=53995c3f42cd8ad8;Sampled=1;k=v", root)
+			case "opaque":
+				inv.Trace = "trace " + root + " =;;"
+			}
 		}
 		c.Invs = append(c.Invs, inv)
 	}
@@ -380,6 +398,10 @@ func c04Fixed() []c04Case {
 			{Order: []string{"R.resp", "E0.next", "R.next", "I.next"}, QuietMs: 50, Trace: "Root=1-5e1b4151-000000000000000000000001;Parent=53995c3f42cd8ad8;Sampled=1"},
 			{Order: []string{"I.next", "R.resp", "R.next", "E0.next"}, QuietMs: 50}}},
 		{Invs: []c04Inv{{Order: []string{"R.resp", "R.next"}, QuietMs: 30}, {Order: []string{"R.resp", "R.next"}, QuietMs: 30}}},
+		// trace header values that are not the usual three fields reach the subscribers as sent
+		{Subs: [][]string{{"INVOKE"}}, Invs: []c04Inv{
+			{Order: []string{"R.resp", "R.next", "E0.next"}, QuietMs: 30, Trace: "Root=1-5e1b4151-000000000000000000000002;Parent=53995c3f42cd8ad8;Sampled=1;Lineage=a87bd80c:1|68fd508a:5"},
+			{Order: []string{"R.resp", "E0.next", "R.next"}, QuietMs: 30, Trace: "Parent=53995c3f42cd8ad8;Root=1-5e1b4151-000000000000000000000003"}}},
 		// an internal extension without subscriptions next to a subscribed one: the first receives nothing
 		{Subs: [][]string{{"SHUTDOWN"}}, Internal: true, Silent: true, Invs: []c04Inv{
 			{Order: []string{"R.resp", "I.next", "R.next"}, QuietMs: 40}, {Order: []string{"I.next", "R.resp", "R.next"}, QuietMs: 40}}},
